@@ -63,8 +63,9 @@ def make_tree(rng):
 
 
 def regen_clisrc():
-    from translate import clisrc, cliresolve
+    from translate import clisrc, cliresolve, climain
     cliresolve.generate()       # CmGen/CliResolve.lean: resolve_variable, its call sites and the pre-pass of main (CmProps/C08resolve.lean)
+    climain.generate()          # CmGen/CliMain.lean: the per-file loop of main (uses CliResolve's pre-pass image; CmProps/C18main.lean)
     clisrc.generate()           # CmGen/CliSrc.lean: path handling, target ratio, dispatch literals of cli/main.py as they read now (CmProps/C18src.lean)
 
 
@@ -72,6 +73,8 @@ def check(run):
     run.proof = proof_status("C18", regenerate=regen_clisrc)
     from translate import clisrc as _cs
     run.extra["source_translation"] = _cs.summary()
+    from translate import climain as _cm
+    run.extra["source_translation_main"] = _cm.summary()
     q = run.quick()
     repo_import()
     n = 45 if q else 1200
